@@ -497,6 +497,7 @@ def _fit_cases(fam):
 
 def make_fit_contract(fam):
     ps = fam_params(fam)
+    sname = scipy_name(fam)
 
     class Fit(Contract):
         """_fit_mle: scipy's fit is called on the data with the current parameters as start values and with
@@ -586,13 +587,44 @@ def make_fit_contract(fam):
             fx = {"f_" + p: base[p] for p in ps if case["pattern"][p]}
             gen = cls(**{p: base[p] for p in ps})
             data = gen.draw_sample(400, random_state=rng)
-            inst = cls(**fx)
+            # user start values: every free parameter gets its own, distinguishable value (a swap must show)
+            start = {p: base[p] * (1.1 + 0.07 * i) for i, p in enumerate(ps) if not case["pattern"][p]}
+            inst = cls(**start, **fx)
+            import scipy.stats as sts
+            sdist = getattr(sts, sname)
+            seen = []
+            real_fit = sdist.fit
+
+            def spy(d, *a, **k):
+                seen.append((list(a), dict(k)))
+                return real_fit(d, *a, **k)
             try:
+                slots = [float(v) for v in pad(fam, [float(v) for v in inst._get_scipy_parameters(*[None] * len(ps))])]
+            except Exception:
+                slots = None
+            try:
+                sdist.fit = spy
                 inst.fit(data)
             except Exception as e:
                 return {"confirmed": True, "detail": f"{fam}(**{fx}).fit(data) raised {type(e).__name__}: {e}"}
+            finally:
+                try:
+                    del sdist.fit
+                except AttributeError:
+                    sdist.fit = real_fit
             bad = [p for p in ps if case["pattern"][p] and abs(getattr(inst, p) - base[p]) > 1e-12 * max(1, abs(base[p]))]
-            return {"confirmed": bool(bad), "detail": f"{fam}(**{fx}).fit(data) -> {inst.parameters}; fixed changed: {bad}"}
+            wrong_start = []
+            if slots is not None and len(seen) == 1:
+                a, k = seen[0]
+                n_shapes = len(slots) - 2
+                for i, v in enumerate(a[:n_shapes]):
+                    if abs(float(v) - slots[i]) > 1e-12 * max(1, abs(slots[i])):
+                        wrong_start.append(f"shape {i}: start {float(v)!r}, current parameter {slots[i]!r}")
+                for nm, j in (("loc", -2), ("scale", -1)):
+                    if nm in k and abs(float(k[nm]) - slots[j]) > 1e-12 * max(1, abs(slots[j])):
+                        wrong_start.append(f"{nm}: start {float(k[nm])!r}, current parameter {slots[j]!r}")
+            return {"confirmed": bool(bad or wrong_start),
+                    "detail": f"{fam}(**{ {**start, **fx} }).fit(data) -> {inst.parameters}; fixed changed: {bad}; start values handed to scipy that are not the current parameters: {wrong_start}"}
     Fit.__name__ = f"Fit_{fam}"
     return contract(D + fam + "._fit_mle", ["C11", "C12"], _fit_cases(fam), name=f"fit_mle.{fam}")(Fit)
 
@@ -815,6 +847,8 @@ def _sd_ctor_cases():
             cases.append(dict(dist=name, mode="fixed", p=p, order="fixed_first"))
             cases.append(dict(dist=name, mode="fixed", p=p, order="free_first"))
         cases.append(dict(dist=name, mode="unknown_kw"))
+        for p in pars:  # positional values for every parameter AND one of them declared fixed: the fixed value wins
+            cases.append(dict(dist=name, mode="fixed", p=p, order="positional_plus_fixed"))
     return cases
 
 
@@ -838,10 +872,15 @@ class ScipyCtor(Contract):
         elif case["mode"] == "fixed":
             self.free = real(cx, "free_value")
             self.fix = real(cx, "fixed_value")
-            items = [("f_" + case["p"], self.fix), (case["p"], self.free)]
-            if case["order"] == "free_first":
-                items.reverse()
-            kw = dict(items)
+            if case["order"] == "positional_plus_fixed":
+                self.vals = [real(cx, f"arg{i}") for i in range(len(pars))]
+                args = list(self.vals)
+                kw = {"f_" + case["p"]: self.fix}
+            else:
+                items = [("f_" + case["p"], self.fix), (case["p"], self.free)]
+                if case["order"] == "free_first":
+                    items.reverse()
+                kw = dict(items)
         elif case["mode"] == "unknown_kw":
             kw = {"no_such_parameter": real(cx, "v")}
         return [self.obj] + args, kw
